@@ -1492,6 +1492,13 @@ class Isin(Elemwise):
     def _broadcast_dep(self, dep: Expr):
         return dep.npartitions == 1
 
+    def _simplify_up(self, parent, dependents):
+        if isinstance(self.operand("values"), dict):
+            # The values are keyed by column, so the frame has to keep its
+            # columns (pandas cannot even handle a frame without columns here)
+            return
+        return super()._simplify_up(parent, dependents)
+
 
 class Clip(Elemwise):
     _projection_passthrough = True
